@@ -966,6 +966,7 @@ func (g *groupQuery) Select(t iterator) NodeNavigator {
 }
 
 func (g *groupQuery) Evaluate(t iterator) interface{} {
+	g.posit = 0
 	return g.Input.Evaluate(t)
 }
 
@@ -1320,6 +1321,9 @@ func (d *descendantOverDescendantQuery) Select(t iterator) NodeNavigator {
 
 func (d *descendantOverDescendantQuery) Evaluate(t iterator) interface{} {
 	d.Input.Evaluate(t)
+	d.level = 0
+	d.posit = 0
+	d.currentNode = nil
 	return d
 }
 
@@ -1384,6 +1388,7 @@ func (m *mergeQuery) Select(t iterator) NodeNavigator {
 
 func (m *mergeQuery) Evaluate(t iterator) interface{} {
 	m.Input.Evaluate(t)
+	m.iterator = nil
 	return m
 }
 
